@@ -1,7 +1,7 @@
 (** Gap list surgery (the new gap list is the old one minus [a', b')) and the re-insert
     lemma: storing S[a', b') after removing the entries inside [a', b') preserves [Inv]. *)
 From Coq Require Import List ZArith Lia Bool Permutation.
-From V Require Import Gen.Params Lib.Hex FrameSorter.Model FrameSorter.InvCheck FrameSorter.ProofsBase
+From V Require Import Gen.Params Lib.Hex FrameSorter.Model FrameSorter.InvCheck FrameSorter.Spec FrameSorter.ProofsBase
   FrameSorter.ProofsLoops FrameSorter.ProofsFind FrameSorter.ProofsPop FrameSorter.ProofsInv.
 Import ListNotations.
 Open Scope Z_scope.
